@@ -41,7 +41,7 @@ class Labels:
     the default (union of argument labels).
     """
 
-    def __init__(self, fn, seed=None, call_transfer=None, init=None, through_calls=True, recv_flow=False):
+    def __init__(self, fn, seed=None, call_transfer=None, init=None, through_calls=True, recv_flow=False, keep=None):
         self.fn = fn
         self.labels = defaultdict(set)
         if init:
@@ -51,6 +51,7 @@ class Labels:
         self.call_transfer = call_transfer
         self.through_calls = through_calls
         self.recv_flow = recv_flow
+        self.keep = keep      # keep(local) -> bool: may this local carry labels at all (type filter)
         self._run()
 
     def of_place(self, p, where=None):
@@ -79,6 +80,10 @@ class Labels:
                     ls = set()
                     for p in places_read(s["rv"]):
                         ls |= self.of_place(p, ("stmt", bb, j, s))
+                    if ls and s["lhs"]["p"] and s["lhs"]["p"][0] == "*":
+                        ls = set()      # a write through a reference does not change what the reference itself denotes
+                    if ls and self.keep is not None and not self.keep(s["lhs"]["l"]):
+                        ls = set()
                     if ls:
                         tgt = self.labels[s["lhs"]["l"]]
                         if not ls <= tgt:
@@ -92,6 +97,8 @@ class Labels:
                         res = self.call_transfer(t, al)
                     if res is None:
                         res = set().union(*al) if (al and self.through_calls) else set()
+                    if res and self.keep is not None and not self.keep(t["dest"]["l"]):
+                        res = set()
                     if res:
                         tgt = self.labels[t["dest"]["l"]]
                         if not res <= tgt:
